@@ -47,7 +47,13 @@ def violates(run, case, impl, model):
     return False
 
 
-LEVEL_TEXT = "see docs/C12.md"
-LEVEL_NOTE = "see docs/C12.md"
+LEVEL_TEXT = ("Proof (all schedules, all MaxConcurrentCalls/queue sizes/call sets) on the small-step model: the set of calls "
+              "holding a slot never exceeds MaxConcurrentCalls; at most one call is started-and-unacknowledged and a new "
+              "implementation starts only then (gate); user Shutdown runs at most once, only when no call holds a slot, "
+              "cancels running calls, and nothing starts after Shutdown began; a direct call completes exactly once. "
+              "NOT proved: exactly-once for pipelined calls, queue_order, no_stuck - these are checked on the "
+              "implementation's event logs by the correspondence run only.")
+LEVEL_NOTE = ("level other: queue_order / no_stuck / pipelined exactly-once have no theorem yet (docs/C12.md). Trusted: Coq "
+              "kernel, extraction, the hand-written model, the trace acceptor, the synctest harness.")
 TECHNIQUE = "Coq proof over a small-step concurrent model (all interleavings) + trace acceptance of synctest histories by the extracted model"
 DESIGN_REF = "DESIGN.md section 6, C12"
